@@ -149,7 +149,12 @@ class SymExec(object):
             return ('const', n.value)
         if isinstance(n, ast.Name):
             if n.id in st.env:
-                return st.env[n.id]
+                v = st.env[n.id]
+                if not (v[0] == 'call' and v[1] == ('name', '__cdecl__')):
+                    return v
+                # a declared C struct: if fields were assigned since, show them (below); else the declaration itself
+                if not any(isinstance(k, str) and k.startswith(n.id + '.') for k in st.env):
+                    return v
             pre = n.id + '.'
             fields = () if n.id in self._params else tuple(sorted((k[len(pre):], v) for k, v in st.env.items()
                                   if isinstance(k, str) and k.startswith(pre) and '.' not in k[len(pre):]))
